@@ -29,6 +29,9 @@ FLAV = [
     "The change should only manifest in how errors are REPORTED rather than whether they occur - but in a way that the property's statement explicitly covers (a status code, message or detail, Canceled versus DeadlineExceeded, an error where the statement demands one).",
     "The change should only manifest at scale: many calls, many streams, many peers or keys, many messages, large totals, long sequences - something that counts, fills up, wraps around or gets slow only after a threshold that small tests never reach (keep the threshold within the property's stated scope).",
     "The change should only manifest in one topology or transport: through a Proxy, behind a Demux, over the WebSocket, HTTP or channel transport, on a by-reference versus a serialising link - while the plain direct path stays correct.",
+    "The change should only manifest when something is SLOW rather than broken: a transport Write or Read that takes seconds, a receiver or handler that pauses between operations, a peer that answers late, time passing between two steps - anything that takes longer than the code tacitly assumes (timeouts, timers, retries, 'this never blocks').",
+    "The change should only manifest when the SAME thing happens twice: the same call repeated, the same envelope or id seen again, an operation retried after it failed, a second failure after a first, Close/Cancel/Stop or a callback invoked a second time, a peer or key that comes back.",
+    "The change should only manifest through the interaction of TWO parties that share something: two connections of one Server, two clients of one Proxy, two keys of one Demux, two streams of one connection, a caller's sender and receiver goroutines - where what one of them does changes what the other observes.",
 ]
 for n, (i, p) in enumerate(props.items()):
     wt = "%s/%s" % (root, i)
